@@ -84,6 +84,11 @@ ROLES = {
     "frg::rcu_radixtree::entry_node": [("mask", _t(r"atomic")), ("entries", lambda t, f: "atomic" not in t)],
     "frg::rcu_radixtree::node": [("prefix", _t(r"^uint64_t$|^unsigned long$")), ("depth", _t(r"^unsigned int$|^int$")), ("parent", _t(r"\*$"))],
     "frg::rcu_radixtree::iterator": [("_n", _t(r"\*$")), ("_idx", _t(INT))],
+    "frg::qs_domain": [("_mutex", _t(r"Mutex$")), ("_qs_counter", ("nth", r"atomic<(uint64_t|unsigned long)>", 0)),
+                        ("_desired_qs_counter", ("nth", r"atomic<(uint64_t|unsigned long)>", 1)),
+                        ("_num_agents", _t(r"^(unsigned int|unsigned|size_t|unsigned long)$")), ("_agents_to_ack", _t(r"atomic<unsigned( int)?>"))],
+    "frg::_list::intrusive_list": [("_front", _t(r"owner_pointer$")), ("_back", _t(r"borrow_pointer$"))],
+    "frg::_list::intrusive_list::iterator": [("_current", _t(r"."))],
 }
 
 
@@ -113,7 +118,14 @@ def _mapping(rec, d=None):
     # accessor selectors first: ("ret", method) = the member that method returns
     resolved = []
     for canon_name, pred in spec:
-        if isinstance(pred, tuple) and pred[0] == "ret":
+        if isinstance(pred, tuple) and pred[0] == "nth":
+            # ("nth", type regex, k): the k-th member (declaration order) whose type matches
+            rx = re.compile(pred[1])
+            hits = [f_["n"] for f_ in rec["fields"] if rx.search(f_["t"])]
+            if len(hits) <= pred[2]:
+                return None
+            resolved.append((canon_name, (lambda t, f, nm=hits[pred[2]]: f["n"] == nm)))
+        elif isinstance(pred, tuple) and pred[0] == "ret":
             nm = _returned_field(d, rec, pred[1]) if d is not None else None
             if nm is None:
                 return None
@@ -143,8 +155,164 @@ def _mapping(rec, d=None):
     return m
 
 
+def flatten_state_structs(d):
+    """A class may keep some of its private data members in one nested struct member (`struct state { ... } _st;`, every
+    use spelled `_st.x`).  That is the same object with the same members in the same order: the nested record is dissolved
+    into the class before anything else looks at the unit.  Candidates are record-typed members whose type is declared
+    INSIDE the class, is not one of the record types the library had when the rules were written (known_records.json) and
+    is the type of exactly one member.  Returns {(class uq, member name): nested uq}."""
+    import json, os
+    try:
+        known = set(json.load(open(os.path.join(os.path.dirname(os.path.abspath(__file__)), "known_records.json"))))
+    except Exception:
+        return {}
+    recs = d.get("records", [])
+    by_uq = {}
+    for r in recs:
+        by_uq.setdefault(r["uq"], []).append(r)
+    uses = {}
+    for r in recs:
+        for f in r["fields"]:
+            if f.get("rt"):
+                uses.setdefault(f["rt"], set()).add((r["uq"], f["n"]))
+    flat = {}
+    for r in recs:
+        for f in r["fields"]:
+            rt = f.get("rt")
+            if not rt or f.get("extent") or rt in known or not rt.startswith(r["uq"] + "::") or rt not in by_uq:
+                continue
+            if len(uses.get(rt, ())) != 1 or any(n_.get("bases") for n_ in by_uq[rt]):
+                continue
+            flat[(r["uq"], f["n"])] = rt
+    if not flat:
+        return {}
+    nested_owner = {rt: c for (c, _), rt in flat.items()}
+    for r in recs:
+        out = []
+        for f in r["fields"]:
+            rt = flat.get((r["uq"], f["n"]))
+            if rt is None:
+                out.append(f)
+                continue
+            # the instantiation of the nested record that belongs to this instantiation of the class
+            cand = [n_ for n_ in by_uq[rt] if n_["qn"].startswith(r["qn"] + "::")] or by_uq[rt]
+            out += [dict(x) for x in cand[0]["fields"]]
+        r["fields"] = out
+    for fn in d.get("functions", []):
+        nodes = fn.get("nodes") or []
+        def strip(i):
+            hops = 0
+            while nodes[i].get("k") in ("ImplicitCastExpr", "ParenExpr") and nodes[i].get("c") and hops < 6:
+                i, hops = nodes[i]["c"][0], hops + 1
+            return i
+        for n in nodes:
+            k = n.get("k")
+            if k == "MemberExpr" and n.get("mk") == "Field" and n.get("mc") in nested_owner:
+                owner = nested_owner[n["mc"]]
+                n["mc"] = owner
+                if n.get("c"):
+                    b = nodes[strip(n["c"][0])]
+                    if b.get("k") == "MemberExpr" and b.get("mk") == "Field" and flat.get((b.get("mc"), b.get("m"))) is not None and b.get("c"):
+                        n["c"] = [b["c"][0]] + n["c"][1:]
+                        if b.get("arrow"):
+                            n["arrow"] = True
+                        elif "arrow" in n:
+                            del n["arrow"]
+            elif k == "CtorInit" and n.get("fieldcls") in nested_owner:
+                n["fieldcls"] = nested_owner[n["fieldcls"]]
+        # what is left of the member itself (`auto &st = _dom->_st;`, `swap(_st, other._st)`) names the enclosing object
+        for n in nodes:
+            if n.get("k") == "MemberExpr" and n.get("mk") == "Field" and flat.get((n.get("mc"), n.get("m"))) is not None:
+                n["flat"] = True
+        # `_st{a, b}` in a constructor's initialiser list: one initialiser per member
+        blocks = fn.get("blocks") or []
+        for n in list(nodes):
+            if n.get("k") != "CtorInit" or flat.get((n.get("fieldcls"), n.get("field"))) is None or n.get("init") is None:
+                continue
+            rt = flat[(n["fieldcls"], n["field"])]
+            nf = by_uq[rt][0]["fields"]
+            ini = nodes[n["init"]]
+            if ini.get("k") == "InitListExpr" and len(ini.get("c") or []) == len(nf) and nf:
+                first = True
+                added = []
+                for fld, ci in zip(nf, ini["c"]):
+                    if first:
+                        n["field"], n["md"], n["init"] = fld["n"], fld.get("md"), ci
+                        first = False
+                        continue
+                    m = {"i": len(nodes), "synthetic": True, "k": "CtorInit", "l": n.get("l"), "field": fld["n"],
+                         "fieldcls": n["fieldcls"], "md": fld.get("md"), "init": ci, "c": []}
+                    nodes.append(m)
+                    added.append(m["i"])
+                for b in blocks:
+                    if n["i"] in b.get("elems", []):
+                        at = b["elems"].index(n["i"])
+                        b["elems"][at + 1:at + 1] = added
+                        # the list expression itself is no longer an element of its own
+                        if n.get("i") is not None and ini["i"] in b["elems"]:
+                            b["elems"].remove(ini["i"])
+    return flat
+
+
+
+def reattach_moved_members(d):
+    """A member function that moved into a (new) base or detail class keeps its name, its parameters and its meaning:
+    `hook_access<T, M>::get_left` is the accessor the rules know as `tree_crtp_struct::get_left`.  A function whose
+    qualified name is unknown, while a KNOWN function of the same namespace, simple name and arity no longer exists in the
+    unit, takes that known name (its definition and every call of it)."""
+    from .inline import known_functions, known_arities
+    kf, ka = known_functions(), known_arities()
+    if not kf or not ka:
+        return {}
+    fns = d.get("functions", [])
+    present = {f.get("uq") for f in fns}
+    for f in fns:
+        for n in f.get("nodes") or ():
+            c = n.get("callee")
+            if c and c.get("uq"):
+                present.add(c["uq"])
+    by_key = {}
+    for k in ka:
+        uq, ar = k.rsplit("/", 1)
+        parts = uq.split("::")
+        if len(parts) < 3 or uq in present:
+            continue
+        by_key.setdefault(("::".join(parts[:-2]), parts[-1], int(ar)), []).append(uq)
+    moved = {}
+
+    def target(uq, arity, cls):
+        if not uq or uq in kf or uq in moved:
+            return moved.get(uq)
+        parts = uq.split("::")
+        if len(parts) < 3 or not cls:
+            return None
+        cand = by_key.get(("::".join(parts[:-2]), parts[-1], arity), [])
+        if len(cand) == 1:
+            moved[uq] = cand[0]
+            return cand[0]
+        return None
+    for f in fns:
+        t = target(f.get("uq"), len(f.get("params", [])), f.get("cls"))
+        if t:
+            f["moved_from"] = f["uq"]
+            f["uq"] = t
+            f["cls"] = t.rsplit("::", 1)[0]
+    for f in fns:
+        for n in f.get("nodes") or ():
+            c = n.get("callee")
+            if c and c.get("uq"):
+                t = moved.get(c["uq"]) or target(c["uq"], len(c.get("ptypes") or []), c.get("cls"))
+                if t:
+                    c["uq"] = t
+                    c["cls"] = t.rsplit("::", 1)[0]
+    return moved
+
+
+
 def normalise(d):
     """Rewrite the raw unit dict in place; returns {class uq: {actual: canonical}} for the classes that were renamed."""
+    flatten_state_structs(d)
+    reattach_moved_members(d)
     maps = {}
     for rec in d.get("records", []):
         if rec["uq"] in ROLES and rec["uq"] not in maps:
